@@ -14,6 +14,9 @@ classify = c02.classify
 
 
 def nontrivial(c):
+    if c.line.startswith("core "):
+        # core fragment: the model compiler's line table and the reference evaluation's failing line were compared
+        return c.impl.startswith("code=") and " rterr " in c.impl and c.spec.startswith("m code=") and " rterr " in c.spec
     return c.impl.startswith("rterr") and c.spec.startswith("m rterr")
 
 
@@ -63,6 +66,62 @@ def build(rng):
     return ("\r\n" if crlf else "\n").join(lines) + ("\r\n" if crlf else "\n"), expect, crlf
 
 
+# ---- the core fragment (lean/P2sh/Core/Lines.lean, theorem Props.C13.fail_line_program): op `core` compares the real
+# compiler's whole line table with `Core.lineTable` and the reported line with `Core.failLine`, on constructs that
+# span several lines.  (text of the failing construct, 0-based offset of the line of the failing OPERATOR inside it)
+CORE_FAIL = [("(2 / 0)", 0), ("(7 %\n  0)", 0), ("(2\n  / 0)", 1), ("(1\n  +\n  'c')", 1), ("(null -\n  1)", 0), ("(-'c')", 0), ("(-\n  'c')", 0), ("(~1.5)", 0), ("(~\n\n  null)", 0),
+             ("(true < false)", 0), ("(1 <=\n  null)", 0), ("(1 << \"\")", 0), ("(1.5 &\n  1)", 0), ("(b'a' *\n  'c')", 0), ("((1 / 0) +\n  (2 / 0))", 0), ("((1 - null) <\n  (2 / 0))", 1),
+             ("((1 - null)\n  <=\n  (2 % 0))", 2), ("(if true {\n  'c' - 1\n})", 1), ("(if 1 > 2 { 1 } else {\n  1 /\n  0\n})", 2), ("(false ||\n  (1 / 0))", 1), ("(1 &&\n  (null\n  * 2))", 2),
+             ("(!(1 / 0))", 0), ("(9223372036854775807 +\n  (1 % 0))", 1)]
+CORE_FILLER = ["", "# a comment", "// another comment", "let k{n} = {n};", "k0 = k0 + 1;", "{{ let inner{n} = k0 * 2; }}", "if k0 > 100 {{ k0 }} else {{ 0 }};",
+               "let q{n} = 0; while q{n} < 3 {{ q{n} = q{n} + 1; }}", "k0 = (k0\n  +\n  1);", "false && (1 / 0);", "true || (1 % 0);"]
+
+
+def build_core(rng):
+    lines = ["let k0 = 0;"]
+    for n in range(rng.randint(0, 25)):
+        lines.append(rng.choice(CORE_FILLER).format(n=n + 1))
+    f, off = rng.choice(CORE_FAIL)
+    lines = "\n".join(lines).split("\n")
+    place = rng.random()
+    if place < 0.2:
+        pre, post = [], ";"
+    elif place < 0.35:
+        pre, post = ["let z = 1 +"], ";"
+    elif place < 0.5:
+        pre, post = ["if k0 >= 0 {"], "\n};"
+    elif place < 0.6:
+        pre, post = ["if k0 < 0 { 1 } else if false { 2 } else {"], "\n};"
+    elif place < 0.7:
+        pre, post = ["true &&", "  (null ||"], ");"
+    elif place < 0.8:
+        # `<` evaluates its right operand first: the construct on the right fails before the division on the left
+        pre, post = ["(1 / 0) <"], ";"
+    else:
+        # inside a loop, in the k-th iteration (k-1 complete iterations before)
+        k = rng.randint(1, 4)
+        pre, post = ["let i = 0;", "while i < 5 {", "  i = i + 1;", f"  if i == {k} {{"], "\n  } else { 0 };\n}"
+    lines += pre
+    start = len(lines) + 1            # 1-based line on which the construct starts
+    lines += (f + post).split("\n")
+    lines.append("k0 = k0 + 1;")
+    lines.append("k0")
+    return "\n".join(lines) + "\n", start + off
+
+
+def multiline(rng, src):
+    """the same core program with random token boundaries turned into line breaks (no token of the fragment contains a space)"""
+    return "".join("\n" if ch == " " and rng.random() < 0.2 else ch for ch in src)
+
+
+def core_cases(ctx):
+    rng = ctx.rng
+    progs = [("core-failing-construct",) + build_core(rng) for _ in range(ctx.scale(800, 40000))]
+    progs += [("core-multiline", multiline(rng, c02.core_program(rng, typed=(k % 4 == 0))), None) for k in range(ctx.scale(1200, 60000))]
+    lines = lang_lines(ctx, [s for _, s, _ in progs], op="core")
+    return [Case(l, (t,), extra={"src": s, "expect_line": e}) for l, (t, s, e) in zip(lines, progs)]
+
+
 def cases(ctx):
     rng = ctx.rng
     progs = []
@@ -73,12 +132,16 @@ def cases(ctx):
         progs.append(("generated", s, None))
     srcs = [s for _, s, _ in progs]
     lines = lang_lines(ctx, srcs)
-    return [Case(l, (t,), extra={"src": s, "expect_line": e}) for l, (t, s, e) in zip(lines, progs)]
+    return [Case(l, (t,), extra={"src": s, "expect_line": e}) for l, (t, s, e) in zip(lines, progs)] + core_cases(ctx)
 
 
 def judge(c):
     """independent of the AST lines: the failing construct's line as laid out by the generator"""
     e = (c.extra or {}).get("expect_line")
+    if e is not None and c.line.startswith("core "):
+        # a core program built around one failing construct must fail, on the line of the failing operator
+        t = c.impl.split(" ")
+        return "rterr" in t[:-1] and t[t.index("rterr") + 1] == str(e)
     if e is None or not c.impl.startswith("rterr "):
         return None
     return c.impl.split(" ")[1] == str(e)
